@@ -179,6 +179,29 @@ Fixpoint value_eqb (a b : value) {struct a} : bool :=
   | _, _ => false
   end.
 
+(* What the sandbox's marshal transport (and JSON after it) accepts: exact None/bool/int/float/str, lists, tuples,
+   dicts with exact-str keys.  Instances of subclasses (sub = true, RecordList) are refused by marshal.dumps. *)
+Fixpoint marshalableb (v : value) : bool :=
+  match v with
+  | PNone | PBool _ | PInt false _ | PFloat false _ | PStr false _ => true
+  | PList LPlain l | PTuple l => forallb marshalableb l
+  | PDict l => forallb (fun kv => match kv with
+                                  | (PStr false _, x) => marshalableb x
+                                  | _ => false
+                                  end) l
+  | _ => false
+  end.
+
+(* P holds at v and at every value encode_object recurses into (items, dict keys and values, user input) *)
+Fixpoint vforall (P : value -> bool) (v : value) : bool :=
+  P v &&
+  match v with
+  | PList _ l | PTuple l => forallb (vforall P) l
+  | PDict l => forallb (fun kv => match kv with (k, x) => vforall P k && vforall P x end) l
+  | PErr _ _ _ (Some u) => vforall P u
+  | _ => true
+  end.
+
 Inductive result (A : Type) := Ok (a : A) | Raise (e : str).
 Arguments Ok {A} a.
 Arguments Raise {A} e.
@@ -754,7 +777,13 @@ Fixpoint encode_f (fuel : nat) (v : value) : value :=
   | PRecordSetStub t rows => tag "r" [t; rows]
   | PDict l =>
       if forallb (fun kv => is_str (fst kv)) l then
-        children (map snd l) (fun vs => tag "O" [PDict (combine (map fst l) vs)])
+        match l with
+        | [] => tag "O" [PDict []]
+        | _ => match fuel with
+               | O => U
+               | S n => tag "O" [PDict (map (fun kv => (fst kv, encode_f n (snd kv))) l)]
+               end
+        end
       else U
   | PPending => tag "P" []
   | PCensored => tag "C" []
